@@ -145,6 +145,22 @@ def draw_seed64(rng):
     return rng.choice([0, 0, 1, U32MAX, 1 << 32, 1 << 63, (1 << 64) - 1, rng.getrandbits(64), rng.getrandbits(31)])
 
 
+def _roundoff_widths(limit=128):
+    """Widths w for which the default threshold fraction fl(1/w) is below 1/w far enough
+    that floor(fl(1/w) * (k*w)) < k for some small k: at n_added = k*w the documented
+    default threshold floor(phi * n_added) sits one below the 'intended' k. Any
+    reformulation of that product (integer division, phi recomputed elsewhere) changes
+    query() answers exactly there."""
+    out = []
+    for w in range(2, limit + 1):
+        if any(int((1.0 / w) * (k * w)) != k for k in range(1, 33)):
+            out.append(w)
+    return out
+
+
+ROUNDOFF_WIDTHS = _roundoff_widths()
+
+
 def draw_config(rng, family, wmax=16, dmax=8, nodes_max=4, events=(20, 80), **over):
     cfg = {"family": family}
     if family in ("linear", "log16", "log8", "hh"):
@@ -162,6 +178,10 @@ def draw_config(rng, family, wmax=16, dmax=8, nodes_max=4, events=(20, 80), **ov
                                  min(0.999, (1.0 / w_) * 1.001) if w_ > 1 else 0.5])
         if cfg["phi"] is None and cfg["width"] == 1 and over.get("avoid_phi1"):
             cfg["phi"] = 0.5
+        if rng.random() < 0.05:
+            # default phi at a width where phi * n_added rounds below an exact multiple
+            cfg["width"], cfg["phi"], cfg["topup"] = rng.choice(ROUNDOFF_WIDTHS), None, 0.3
+            cfg["depth"] = min(cfg["depth"], 2)
     if family == "hll":
         cfg["p"] = rng.choice([7, 7, 8, 9, 10, 12, 14, 16, rng.randrange(7, 17)])
         cfg["seed"] = draw_seed64(rng)
@@ -401,6 +421,14 @@ def gen_workload(rng, world, mult, node=None):
         ev["key"] = _pick_key(rng, cfg)
         if rng.random() < 0.85:
             ev["v"] = draw_mult(rng, mult, thr)
+        if world.fam == "hh" and rng.random() < cfg.get("topup", 0.04):
+            # top n_added up to an exact multiple of 1/phi: floor(phi * n_added), the
+            # default query threshold, is then at (or a rounding error below) an integer
+            nd = world.nodes[i]
+            sk = nd.primary
+            if sk is not None:
+                period = int(cfg["width"]) if cfg.get("phi") is None else max(1, int(round(1.0 / cfg["phi"])))
+                ev["v"] = period - int(sk.n_added()) % period + period * rng.choice([0, 0, 1])
     elif kind == "update_list":
         ev["keys"] = [_pick_key(rng, cfg) for _ in range(rng.randrange(0, 7))]
     elif kind == "update_dict":
